@@ -64,4 +64,24 @@ PROPS = {
              "what": "E-A: sender tasks under seeded poll interposer (await-level interleavings, exact replay)"},
         ],
     },
+    "C03": {
+        "level": "exploration",
+        "technique": "runtime monitoring with model-based expectation: arrival sweep on the virtual-time engine (subject parked at each lifecycle point, every order of every {kill?,stop?,0-2 supervision events,0-2 messages} combination enqueued, released) compared with the documented priority order; plus thread-engine after-kill/after-stop monitors",
+        "level_text": ("Exploration with a fully executed finite family: 6 parking points x 36 item multisets x all distinct arrival "
+                       "orders x 2 interposer settings (6276 executions of the real loop, all run on every invocation), each checked "
+                       "against the expected callback sequence, progress ticks, cancellation and the state seen by post_stop; plus "
+                       "randomized real-thread scenarios with one-pick-in-flight tolerance. Held on what was observed."),
+        "level_note": ("The sweep enqueues items synchronously while the actor is suspended (single-threaded engine), so 'already "
+                       "requested when the actor picks' is exact. Larger mailboxes (>2 of a kind) and other backends are not covered."),
+        "rule": ("vt: the complete family {parking point} x {kill?,stop?,nsup<=2,nmsg<=2} x {distinct permutations} x {defer 0,30%}; every "
+                 "case is non-trivial (>=1 pending item or a parked callback) and distinct by construction; signature = hash(case, observed "
+                 "callback sequence). th: C01's random scenarios with a kill/stop requester on 3 worker threads."),
+        "assumptions": ["pg monitor notifications are used as the source of supervision-port traffic"],
+        "runs": [
+            {"engine": "vt", "quick": 6276, "thorough": 6276,
+             "what": "E-A arrival sweep (complete family, exhaustive over the enumerated cases)"},
+            {"engine": "th", "quick": 1600, "thorough": 100000,
+             "what": "E-T: concurrent kill/stop requesters vs running handlers, after-kill / after-stop clauses with one pick in flight"},
+        ],
+    },
 }
